@@ -468,7 +468,17 @@ func evaluate(ctx *core.Ctx, fc *reqmodel.FullCfg, one oneReq, q *creq, ob *obse
 	_, upHost, upCred := upstreamSpec(fc, host)
 	cliPA := clientValues(q, "Proxy-Authorization")
 	cliAuth := clientValues(q, "Authorization")
-	cliAuthSupplied := len(cliAuth) > 0 && cliAuth[0] != ""
+	// an Authorization the client nominates in Connection is hop-by-hop: it is addressed to this proxy, the
+	// origin-facing request then carries none of the client's (the site credential may be attached)
+	authNominated := false
+	for _, v := range clientValues(q, "Connection") {
+		for _, t := range strings.Split(v, ",") {
+			if strings.EqualFold(strings.TrimSpace(t), "Authorization") {
+				authNominated = true
+			}
+		}
+	}
+	cliAuthSupplied := len(cliAuth) > 0 && cliAuth[0] != "" && !authNominated
 
 	ctx.Case(fmt.Sprintf("%+v|%+v|%v|%v|%v|%+v", one.Route, one.Creds, one.Gate, one.MITM, one.CRules, *q),
 		len(fc.Creds) > 0 || len(cliPA) > 0 || upCred != nil)
@@ -604,6 +614,13 @@ func evaluate(ctx *core.Ctx, fc *reqmodel.FullCfg, one oneReq, q *creq, ob *obse
 			secrets = append(secrets, struct{ kind, val string }{"client Proxy-Authorization", v})
 		}
 	}
+	if authNominated {
+		for _, v := range cliAuth {
+			if v != "" {
+				secrets = append(secrets, struct{ kind, val string }{"client Authorization nominated in Connection (hop-by-hop)", v})
+			}
+		}
+	}
 	for _, hd := range ob.Heads {
 		if _, inside := hd.Fields["x-inside"]; inside {
 			continue
@@ -615,7 +632,7 @@ func evaluate(ctx *core.Ctx, fc *reqmodel.FullCfg, one oneReq, q *creq, ob *obse
 				// (1) the client's Proxy-Authorization goes nowhere
 				for _, s := range secrets {
 					if strings.Contains(v, s.val) {
-						ctx.SpecFail("the client's Proxy-Authorization is never forwarded", "", one, impl, fmt.Sprintf("%s: %s at %s", k, v, hd.Peer))
+						ctx.SpecFail("the client's Proxy-Authorization is never forwarded", "", one, impl, fmt.Sprintf("%s: %s: %s at %s", s.kind, k, v, hd.Peer))
 					}
 				}
 				// (2) upstream credentials only in Proxy-Authorization of a message read by that proxy
@@ -686,7 +703,9 @@ func Run(ctx *core.Ctx) {
 	ctx.SetRule("generated credential tables (exact, *:port, host:*, *:*, overlapping) x upstream selection {none, static http/https/socks5 with or without " +
 		"userinfo, PAC} x gate (proxy basic auth) x MITM, each started as a real proxy; client requests: plain (origin/absolute form, explicit/implicit port), " +
 		"CONNECT (tunnelled through the upstream proxy to a TLS origin), requests inside an intercepted tunnel (https via the transport's own CONNECT); client " +
-		"header shapes: Proxy-Authorization absent/single/repeated/mixed case/nominated by Connection, Authorization absent/present/empty; every head every hop reads " +
+		"header shapes: Proxy-Authorization absent/single/repeated/mixed case/nominated by Connection, Authorization absent/present/empty; 30% of the requests are " +
+		"protocol upgrades (Upgrade + Connection: Upgrade in token lists of every spelling) that also nominate Proxy-Authorization / Authorization / the standard " +
+		"hop-by-hop set / managed and custom names with the nominated fields present; every head every hop reads " +
 		"is compared; plus the exported CredentialsMatcher API against the model on generated tables and lookups; " +
 		"non-trivial = a credential table, a client Proxy-Authorization or an upstream credential is involved; distinct = distinct (configuration, request)")
 	for _, c := range core.LoadCorpus(ctx.Root, "C06") {
